@@ -721,7 +721,7 @@ class Evaluator:
                 ot = self.E(obj, P, fr)
                 if n in MUT:
                     if ob.get('k') == 'local':
-                        P.locals[(fr['id'], ob['id'])] = ('call', 'container:' + n, (ot,) + tuple(args))
+                        P.locals[(fr_o['id'], ob['id'])] = ('call', 'container:' + n, (ot,) + tuple(args))
                     else:
                         # mutation through a pointer/reference parameter or other alias
                         P.events.append(('write-through', ot, loc, ('call', 'container:' + n, (ot,) + tuple(args))))
